@@ -126,7 +126,11 @@ package fstxn
 //@   panic_assumed "AllocInode"
 //@   ensures [F6-alloc] result != nil ==> validInum(result.Inum) && held == store(old(held), result.Inum, true) && !old(held)[result.Inum] && inodeInv(result) && !dirtyinum[result.Inum] @C05
 //@   ensures [F6-init] result != nil && !result.IsShrinking() ==> result.Kind == kind && result.Nlink == 1 @C05 @C08
-//@   ensures result == nil ==> held == old(held)
+//@   ensures result == nil ==> held == old(held) && dirtyinum == old(dirtyinum)
+//@   ensures [others] result != nil ==> (forall j uint64 :: j != result.Inum ==> dirtyinum[j] == old(dirtyinum)[j])
+//@   assumes [I-free] result != nil ==> result.Size == 0 && (result.Dcache != nil ==> result.Dcache.Lastoff & 127 == 0 && result.Dcache.cache != nil)
+//@   ensures [same-object] result != nil ==> fresh(result) || old(result.Inum) == result.Inum
+//@   ensures [frame-inodes] forall p *inode.Inode :: p != result ==> p.Kind == old(p.Kind) && p.Nlink == old(p.Nlink) && p.Gen == old(p.Gen) && p.Inum == old(p.Inum) && p.Atime.Seconds == old(p.Atime.Seconds) && p.Atime.Nseconds == old(p.Atime.Nseconds) && p.Mtime.Seconds == old(p.Mtime.Seconds) && p.Mtime.Nseconds == old(p.Mtime.Nseconds)
 //@   ensures [inv-op] opInv(op)
 //@   ensures [inv-lists] listsValid(op.Atxn)
 //@   ensures [inv-dirty] dirtyInv()
